@@ -16,6 +16,7 @@ type Opt struct {
 	Dense           bool     // make pointer fields non-nil more often
 	RelativePeriods bool     // allow TimePeriodType values with only a relative end time
 	MaxDepth        int      // below this depth pointers to structs become nil (default 4)
+	MixedIDs        bool     // listgen: a partial update with identifiers may carry a further item without any
 	Extremes        bool     // integers and floats also take the boundaries of their type and values beyond 2^53
 	UnsortedFull    bool     // listgen: the items of a full update may come in any identifier order
 	NestedElements  bool     // listgen: delete elements may name sub elements (value:{scale:{}})
